@@ -284,6 +284,11 @@ def run_check(pid, tier, seed=None, workers=None, quiet=False):
     from . import monitor
 
     fcov = monitor.function_coverage(lines_hit, getattr(mod, "FUNCTIONS", []))
+    if os.environ.get("BBVERIF_LINES_DIR"):
+        # tools/uncovered.py: union of the package lines each check executed (no registered command sets this)
+        os.makedirs(os.environ["BBVERIF_LINES_DIR"], exist_ok=True)
+        with open(os.path.join(os.environ["BBVERIF_LINES_DIR"], "%s.%s.json" % (pid, tier)), "w") as f:
+            json.dump({k: sorted(v) for k, v in lines_hit.items()}, f)
     for q in getattr(mod, "REQUIRED_FUNCTIONS", []):
         if q not in funcs:
             problems.append("deciding function %s was never entered" % q)
